@@ -115,14 +115,24 @@ impl BlobWriter for FileBlobWriter {
         // Create the directory if it doesn't exist
         if let Some(parent) = path.parent() {
             create_dir_all(parent)?;
+            #[cfg(locustdb_verif)]
+            crate::verif::fs_effect("mkdir", parent);
         }
 
         // Write the data to a temporary file and then rename it to the target path
         let tmp_path = path.with_extension(".INCOMPLETE");
         let mut file = File::create(&tmp_path)?;
+        #[cfg(locustdb_verif)]
+        crate::verif::fs_effect("create", &tmp_path);
         file.write_all(data)?;
+        #[cfg(locustdb_verif)]
+        crate::verif::fs_effect("write", &tmp_path);
         file.sync_all()?;
+        #[cfg(locustdb_verif)]
+        crate::verif::fs_effect("sync", &tmp_path);
         std::fs::rename(tmp_path, path).map_err(|e| format!("Failed to rename file: {}", e))?;
+        #[cfg(locustdb_verif)]
+        crate::verif::fs_effect("rename", path);
 
         Ok(())
     }
@@ -136,6 +146,8 @@ impl BlobWriter for FileBlobWriter {
 
     fn delete(&self, path: &Path) -> Result<(), Box<dyn Error + Send + Sync + 'static>> {
         std::fs::remove_file(path)?;
+        #[cfg(locustdb_verif)]
+        crate::verif::fs_effect("remove", path);
         Ok(())
     }
 
